@@ -521,6 +521,25 @@ def op_arrlist(w, op):
     return unyt.unyt_array(qs, registry=reg)
 
 
+def op_arrbypass(w, op):
+    """unyt_array(ndarray, <an existing Unit object>, registry=reg, bypass_validation=True): the documented fast
+    constructor with the documented registry= argument.  The Unit object is an exported one (unyt.m) or the unit of a
+    heap object, possibly of another registry."""
+    unyt, lt, dims, uo, ur, us = _U()
+    reg = w.handle(op)
+    if "name" in op:
+        u = getattr(unyt, op["name"])
+        u = u if isinstance(u, uo.Unit) else u.units
+    else:
+        x = w.operand(op, "x")
+        u = x if isinstance(x, uo.Unit) else getattr(x, "units", None)
+        if not isinstance(u, uo.Unit):
+            raise Skip
+    if op.get("cls") == "quantity":
+        return unyt.unyt_quantity(np.float64(op["v"]), u, registry=reg, bypass_validation=True)
+    return unyt.unyt_array(np.array([op["v"], 2.0 * op["v"]]), u, registry=reg, bypass_validation=True)
+
+
 def op_getitem(w, op):
     e = w.handle(op)[op["s"]]
     return [float(e[0]), str(e[1]), float(e[2]), bool(e[4])]
@@ -847,7 +866,7 @@ PROBES = {
     "unitop": op_unitop, "simplify": op_simplify, "units_of": op_units_of, "rebind": op_rebind,
     "namespace": op_namespace, "copyobj": op_copyobj,
     "mkusys": op_mkusys, "mkusys_bad": op_mkusys_bad, "usys_get": op_usys_get, "usys_set": op_usys_set,
-    "list_same": op_list_same, "regview": op_regview, "arrlist": op_arrlist,
+    "list_same": op_list_same, "regview": op_regview, "arrlist": op_arrlist, "arrbypass": op_arrbypass,
 }
 
 INPLACE_TARGET = {("to", "convert"), ("base", "convert_to_base")}
